@@ -4,6 +4,7 @@ import (
 	"bytes"
 	"context"
 	"encoding/json"
+	"errors"
 	"fmt"
 	"io"
 	"net/http"
@@ -221,7 +222,13 @@ func (a *Application) translationHandler(trans translator.RequestTranslator) htt
 		// Read maxBodySize+1 to detect oversized requests before JSON parsing
 		bodyBytes, err := io.ReadAll(io.LimitReader(r.Body, maxBodySize+1))
 		if err != nil {
-			a.writeTranslatorError(w, trans, pr, err, http.StatusBadRequest)
+			status := http.StatusBadRequest
+			var tooLarge *http.MaxBytesError
+			if errors.As(err, &tooLarge) {
+				// the server-wide body limit was hit while reading
+				status = http.StatusRequestEntityTooLarge
+			}
+			a.writeTranslatorError(w, trans, pr, err, status)
 			a.recordTranslatorMetrics(trans, pr, constants.TranslatorModeTranslation, constants.FallbackReasonNone)
 			return
 		}
